@@ -314,13 +314,15 @@ Module RelaySide.
 Import RP.Relay.Model RP.Relay.Oracle RP.Relay.Proofs RP.Relay.History RP.Relay.Frame RP.Relay.OracleProofs.
 Open Scope Z_scope.
 
-(* one request: every named uid leaves every backlog and is canceled as often
-   as it waited there; tasks not named keep their place and their order;
-   nothing is forwarded or failed; scheduler queue and registrations untouched *)
+(* one request: its uids are registered on the cancel list; every named uid
+   leaves every backlog and is canceled as often as it waited there; tasks not
+   named keep their place and their order; nothing is forwarded or failed;
+   scheduler queue and registrations untouched *)
 Theorem C08_relay_cancel_in_backlog :
   forall s us,
     let '(s', e) := step s (Cancel us) in
     backlog s' = unnamed us (backlog s) /\ inq s' = inq s /\ queues s' = queues s
+    /\ clist s' = clist s ++ us /\ gone s' = gone s
     /\ (exists c, e = [OCancel c] /\ (forall u, In u c -> In u us)
                   /\ forall u, In u us -> cnt u c = tot u (backlog s))
     /\ (forall u, In u us -> tot u (backlog s') = 0%nat)
@@ -342,39 +344,55 @@ Proof. exact cancel_stops_waiting_task. Qed.
 Print Assumptions C08_relay_cancel_stops_waiting_task.
 
 (* "a named task that a component meets later is canceled there instead of
-   being processed" is FALSE of the relay: a request handled while the task is
-   still on the scheduler queue misses it; the task is then put into the
-   backlog and relayed when its master registers (witness: task 1 for master 1
-   is put on the queue, the request is handled, the queue is drained, master 1
-   registers) *)
-Theorem C08_relay_cancel_stops_named_refuted :
-  exists ops1 us ops2 u s e,
-    run init (ops1 ++ Cancel us :: ops2) = (s, e) /\ In u us /\
-    n_arr u ops1 = 1%nat /\ n_arr u ops2 = 0%nat /\ n_fwd u (snd (run init ops1)) = 0%nat /\
-    n_fwd u e = 1%nat /\ n_cancel u e = 0%nat.
-Proof. exact cancel_stops_named_refuted. Qed.
-Print Assumptions C08_relay_cancel_stops_named_refuted.
-
-(* what holds of it: a named task that has arrived and is no longer on the
-   scheduler queue when the request is handled is not forwarded from then on *)
-Theorem C08_relay_cancel_stops_named_partial :
+   being processed": a request naming a raptor task that has arrived -- on the
+   scheduler queue or in a backlog -- and has not been forwarded (nor failed or
+   canceled) stops it.  Whatever preceded and whatever follows, the task is
+   never forwarded and never failed, and it is canceled exactly once: by the
+   request itself when it waits in a backlog, by the drain that meets it when
+   it is still on the scheduler queue; until that drain it stays on the queue
+   with its uid on the cancel list. *)
+Theorem C08_relay_cancel_stops_arrived_task :
   forall ops1 us ops2 u s1 e1 s2 e2 s3 e3,
     run init ops1 = (s1, e1) -> step s1 (Cancel us) = (s2, e2) -> run s2 ops2 = (s3, e3) ->
-    In u us -> n_arr u ops1 = 1%nat -> n_arr u ops2 = 0%nat -> n_inq u s1 = 0%nat ->
-    n_fwd u (e2 ++ e3) = 0%nat /\ tot u (backlog s3) = 0%nat.
-Proof. exact cancel_stops_named_partial. Qed.
-Print Assumptions C08_relay_cancel_stops_named_partial.
+    In u us -> n_arr u ops1 = 1%nat -> n_arr u ops2 = 0%nat ->
+    (n_fwd u e1 + n_fail u e1 + n_cancel u e1 = 0)%nat ->
+    let e := e1 ++ e2 ++ e3 in
+    n_fwd u e = 0%nat /\ n_fail u e = 0%nat /\
+    ((n_cancel u e = 1%nat /\ (n_inq u s3 + tot u (backlog s3) = 0)%nat)
+     \/ (n_cancel u e = 0%nat /\
+         (n_inq u s3 = 1%nat /\ tot u (backlog s3) = 0%nat /\ zmem u (clist s3) = true) /\
+         existsb is_drain ops2 = false)).
+Proof. exact cancel_stops_arrived_task. Qed.
+Print Assumptions C08_relay_cancel_stops_arrived_task.
+
+(* ... once the scheduler loop has drained its queue again: canceled exactly once *)
+Theorem C08_relay_cancel_stops_arrived_task_drained :
+  forall ops1 us ops2 u s1 e1 s2 e2 s3 e3,
+    run init ops1 = (s1, e1) -> step s1 (Cancel us) = (s2, e2) -> run s2 ops2 = (s3, e3) ->
+    In u us -> n_arr u ops1 = 1%nat -> n_arr u ops2 = 0%nat ->
+    (n_fwd u e1 + n_fail u e1 + n_cancel u e1 = 0)%nat ->
+    existsb is_drain ops2 = true ->
+    n_cancel u (e1 ++ e2 ++ e3) = 1%nat /\ n_fwd u (e1 ++ e2 ++ e3) = 0%nat /\ n_fail u (e1 ++ e2 ++ e3) = 0%nat
+    /\ (n_inq u s3 + tot u (backlog s3) = 0)%nat.
+Proof. exact cancel_stops_arrived_task_drained. Qed.
+Print Assumptions C08_relay_cancel_stops_arrived_task_drained.
 
 (* tasks not named are unaffected: a request placed anywhere in a history
    changes nothing of what the relay shows about a uid it does not name (to
-   which queue it is put and when, failures, cancellations, all round robin and
-   normal scheduling traffic) and nothing of where that uid waits *)
+   which registered queue it is put and when, that it goes out by round robin,
+   failures, cancellations, all normal scheduling traffic, warnings) and
+   nothing of where that uid waits.  Which queue the round robin picks is not
+   part of the view: it goes by the position among the wildcard tasks of the
+   drain, and a named task canceled in that drain does not take a position. *)
 Theorem C08_relay_bystander_frame :
   forall ops1 us ops2 u s e s' e',
     ~ In u us ->
     run init (ops1 ++ Cancel us :: ops2) = (s, e) -> run init (ops1 ++ ops2) = (s', e') ->
     view u e = view u e' /\
-    (inq s = inq s' /\ queues s = queues s' /\ pv u (backlog s) = pv u (backlog s')).
+    (inq s = inq s' /\ queues s = queues s' /\ gone s = gone s'
+     /\ cnt u (clist s) = cnt u (clist s')
+     /\ (forall k, cnt u (key_list k (backlog s)) = cnt u (key_list k (backlog s')))
+     /\ tot u (backlog s) = tot u (backlog s')).
 Proof. exact bystander_frame. Qed.
 Print Assumptions C08_relay_bystander_frame.
 
@@ -392,12 +410,13 @@ Theorem C08_relay_clauses_hold_in_model :
 Proof. exact clauses_hold_in_model. Qed.
 Print Assumptions C08_relay_clauses_hold_in_model.
 
-(* non-vacuity: tasks 1, 2 wait for master 1, task 3 for any master; the
-   request for 2 and 3 (and an unknown 9) cancels both where they wait; master 1
-   then gets task 1 and the emptied wildcard backlog *)
+(* non-vacuity: tasks 1, 2 wait for master 1, task 3 for any master, task 4 is
+   still on the scheduler queue; the request for 2, 3, 4 (and an unknown 9)
+   cancels 2 and 3 where they wait, the next drain cancels 4; master 1 then gets
+   task 1 and the emptied wildcard backlog *)
 Example C08_relay_nonvacuous :
   let t u n := mkT u (Some n) false false in
-  run init [Arrive [t 1 1; t 2 1; t 3 0]; Drain; Cancel [2; 3; 9]; Register 1 1]
-  = (mkS [] [(1, 1)] [], [OCancel [2; 3]; OPut 1 [1]; OPut 1 []]).
+  run init [Arrive [t 1 1; t 2 1; t 3 0]; Drain; Arrive [t 4 1]; Cancel [2; 3; 4; 9]; Drain; Register 1 1]
+  = (mkS [] [(1, 1)] [] [2; 3; 9] [], [OCancel [2; 3]; OCancel1 4; OPut 1 [1]; OPut 1 []]).
 Proof. vm_compute. reflexivity. Qed.
 End RelaySide.
